@@ -197,7 +197,12 @@ let run (line : string) : string =
            (* blanks inside the view are replaced so that the spec column stays two tokens *)
            let us s = String.concat "_" (split ' ' s) in
            Printf.sprintf "wire=%s exp=%s" (us (vres w))
-             (if parse_pre c plen then us (vpacket_s (expected c plen)) else "-")
+             (* C10_parse_back: every admitted payload, extension headers included; without
+                extension headers expected_x = expected (C10_parse_back_no_exts) *)
+             (if payload_admitted c plen then
+                (if parse_pre c plen && vpacket_s (expected c plen) <> vpacket_s (expected_x c plen)
+                 then "EXPECTED-DIFFER" else us (vpacket_s (expected_x c plen)))
+              else "-")
          | _ -> "-" in
        m ^ " | " ^ spec
      with Unmodelled -> "unmodelled | -")
